@@ -126,7 +126,7 @@ def local_clustering_coefficient(H):
     result = {}
 
     memberships = H.nodes.memberships()
-    members = H.edges.members()
+    members = H.edges.members(dtype=dict)
 
     for n in H.nodes:
         ev = list(memberships[n])
